@@ -64,6 +64,9 @@ type sim struct {
 	rewrites    bool
 	onceWritten map[int]bool
 	notify      time.Duration // the nodes' NotifyInterval
+	// contendedLost: a node restarted after writing its write-once entry (a claimant of a pool token may have
+	// vanished from the cluster after influencing what other nodes store)
+	contendedLost bool
 }
 
 var poolToken = regexp.MustCompile(` ?90000[0-2]`)
@@ -398,6 +401,11 @@ func runCluster(t *testing.T, run *vt.Run, c vt.CaseID, rng *rand.Rand, gossipOn
 						w.cancel()
 					}
 				}
+				if s.onceWritten[i] {
+					// the node's write-once entry may die with it after it already made this node strip the
+					// contended token from another claimant's entry (and re-gossip that entry): the known finding
+					s.contendedLost = true
+				}
 				if err := net.Restart(i); err != nil {
 					run.Inconclusive(err.Error())
 					return
@@ -501,7 +509,7 @@ func runCluster(t *testing.T, run *vt.Run, c vt.CaseID, rng *rand.Rand, gossipOn
 			for j := 1; j < n; j++ {
 				if v := net.Visible(j, key); v != ref {
 					sig := "divergence-after-recovery"
-					if rewrites && key == simnet.RingKey && stripPool(v) == stripPool(ref) {
+					if (rewrites || s.contendedLost) && key == simnet.RingKey && stripPool(v) == stripPool(ref) {
 						// the nodes differ only in who holds a token that two instances claimed and one of the
 						// claimants was rewritten or removed afterwards
 						sig = "divergence/contended-token-after-claimant-rewritten"
